@@ -108,6 +108,7 @@ type PathEngine struct {
 	Incomplete []string // depth or size limits hit
 	nFns       map[*ssa.Function]bool
 	nPaths     int
+	relCache   map[string]map[*ssa.Function]bool
 }
 
 func NewPathEngine(p *Prog) *PathEngine {
